@@ -267,6 +267,119 @@ func init() {
 		Run: func(c *Ctx) {
 			c.ruleSharedAttrWrites("E2a.shared-write", []string{"internal/pkg/table", "pkg/server", "pkg/apiutil"}, 60)
 			c.ruleOwnedPathMutation("E2b.owned-path", 30)
+			c.ruleInboundLoopChecks()
 		},
 	})
+}
+
+// ruleInboundLoopChecks: in handleUpdate every received path is either handed on to the RIB,
+// recorded as End-of-RIB, or marked rejected — never silently skipped while staying "accepted"
+// in Adj-RIB-In — and Adj-RIB-In is updated with the whole list afterwards.
+func (c *Ctx) ruleInboundLoopChecks() {
+	r := c.R
+	rule := "E6.inbound-loop-checks"
+	r.Rule(rule, "in peer.handleUpdate, every iteration over the received paths ends in exactly one of: append to the list handed to the RIB, append to the End-of-RIB list, or SetRejected(true) (own-AS loop / ORIGINATOR_ID checks); and adjRibIn.Update(list) follows the loop", 2)
+	fn := c.P.Func("(*pkg/server.peer).handleUpdate")
+	if fn == nil {
+		r.Undec(rule, "-", "anchor:handleUpdate", "-", "not found")
+		return
+	}
+	fk := ir.FuncKey(fn)
+	pathT := c.P.NamedType("internal/pkg/table", "Path")
+	// the range loop over the []*Path returned by ProcessMessage
+	var header *ssa.BasicBlock
+	for _, b := range fn.Blocks {
+		for _, in := range b.Instrs {
+			// range over a slice compiles to an index loop: header has a phi and a bound test; find the
+			// block that loads the element: IndexAddr on a []*Path whose origin is a call result
+			if ia, ok := in.(*ssa.IndexAddr); ok {
+				if sl, ok := ia.X.Type().Underlying().(*types.Slice); ok {
+					if p, ok := sl.Elem().Underlying().(*types.Pointer); ok && ir.NamedOf(p.Elem()) == pathT {
+						if _, isCall := ia.X.(*ssa.Call); isCall && header == nil {
+							header = b
+						}
+					}
+				}
+			}
+		}
+	}
+	if header == nil {
+		r.Undec(rule, fk, "anchor:loop over received paths", c.P.Pos(fn.Pos()), "loop not found")
+		return
+	}
+	// loop head = the predecessor of `header` that tests the index (it dominates header and is reached by the back edge)
+	var loopHead *ssa.BasicBlock
+	for _, p := range header.Preds {
+		if p.Dominates(header) {
+			loopHead = p
+		}
+	}
+	if loopHead == nil {
+		r.Undec(rule, fk, "anchor:loop head", c.P.Pos(fn.Pos()), "loop head not found")
+		return
+	}
+	mark := func(b *ssa.BasicBlock) bool {
+		for _, in := range b.Instrs {
+			call, ok := in.(*ssa.Call)
+			if !ok {
+				continue
+			}
+			if bi, ok := call.Call.Value.(*ssa.Builtin); ok && bi.Name() == "append" {
+				return true // paths = append(paths, path)  /  eor = append(eor, family)
+			}
+			if callee := call.Call.StaticCallee(); callee != nil && callee.Name() == "SetRejected" && len(call.Call.Args) == 2 {
+				if k, ok := call.Call.Args[1].(*ssa.Const); ok && k.Value != nil && k.Value.String() == "true" {
+					return true
+				}
+			}
+		}
+		return false
+	}
+	// walk from the element-loading block; reaching the loop head again without a mark is a silent skip
+	seen := map[*ssa.BasicBlock]bool{}
+	work := []*ssa.BasicBlock{header}
+	bad := false
+	for len(work) > 0 {
+		b := work[0]
+		work = work[1:]
+		if seen[b] {
+			continue
+		}
+		seen[b] = true
+		if mark(b) {
+			continue
+		}
+		for _, s := range b.Succs {
+			if s == loopHead {
+				bad = true
+				continue
+			}
+			if loopHead.Dominates(s) {
+				work = append(work, s)
+			}
+		}
+	}
+	if bad {
+		r.Bad(rule, fk, "every received path is accepted, recorded as EOR, or marked rejected", c.P.Pos(header.Instrs[0].Pos()), "some branch of the loop skips a received path without marking it rejected: it stays in Adj-RIB-In as accepted and re-enters the decision process on soft reset or graceful restart")
+	} else {
+		r.Ok(rule, fk, "every received path is accepted, recorded as EOR, or marked rejected", c.P.Pos(header.Instrs[0].Pos()), "")
+	}
+	// adjRibIn.Update after the loop
+	upd := c.P.Func("(*internal/pkg/table.AdjRib).Update")
+	found := false
+	for _, b := range fn.Blocks {
+		for _, in := range b.Instrs {
+			if call, ok := in.(*ssa.Call); ok && upd != nil && call.Call.StaticCallee() == upd {
+				found = true
+				if !loopHead.Dominates(b) || seen[b] {
+					r.Bad(rule, fk, "adjRibIn.Update after the checks", c.P.InstrPos(call), "Adj-RIB-In is updated inside/before the loop checks")
+				} else {
+					r.Ok(rule, fk, "adjRibIn.Update after the checks", c.P.InstrPos(call), "")
+				}
+			}
+		}
+	}
+	if !found {
+		r.Bad(rule, fk, "adjRibIn.Update after the checks", c.P.Pos(fn.Pos()), "handleUpdate no longer stores the received paths in Adj-RIB-In")
+	}
 }
